@@ -17,7 +17,7 @@ from gen import wire
 
 RULE = ("random trees over a 3-tag and a realistic tag alphabet x random rendering choices per node (end tag or not, "
         "whitespace from {none, blank, LF, CRLF+indent, tabs, U+00A0, U+0085, U+001C, VT/FF}, CDATA or plain, entity-escaped "
-        "data, '>' ']' ']]' in data); 90% of the renderings drawn inside the strict grammar (guards G1-G3 of "
+        "data, '>' ']' ']]' in data); 90% of the renderings drawn inside the strict grammar (guards G2, G3 of "
         "C02_complete_partial), 10% in the full grammar; all trees of <= 2 nodes over {A,B,C1} x 4 data x every rendering "
         "choice over 4 whitespace values (both tiers); thorough adds all trees of 3-5 nodes x uniform style vectors and all "
         "3-node trees x every choice over 2 whitespace values; token soup for the lexer. A case is non-trivial when the "
@@ -53,8 +53,6 @@ def model_build(rep):
 
 
 def classify(guards):
-    if "G1" in guards:
-        return "cdata_greedy_second_close_on_line"
     if "G2" in guards:
         return "cdata_space_before_end_tag"
     if "G3" in guards:
@@ -113,7 +111,7 @@ def run(ctx):
             model, mkind = model_build(rep_build[i])
             ctx.stat("impl:" + (impl[0] if impl[0] == "ok" else "err:" + str(ikind)))
             ctx.stat("nodes:%d" % min(wire.rt_nodes(rt), 30))
-            ctx.stat("guards:" + ("".join(sorted(set(guards))) or "strict"))
+            ctx.stat("guards:" + ("".join(sorted(set(guards))) or "strict") + ("" if wire.cd_safe(doc) else "+two-]]>-on-a-line"))
             ctx.compare("build", {"doc": doc}, impl, model, nontrivial=(impl[0] == "ok"))
             if impl[0] == "err" and model[0] == "err" and ikind != mkind:
                 ctx.stat("errkind-differs")
@@ -136,7 +134,7 @@ def run(ctx):
                     ctx.disagree("spec.render", {"rt": rt}, mine, rr.vals if rr.ok else rr.raw)
                 elif mine[2] != "T":
                     ctx.disagree("generator-outside-grammar", {"rt": rt}, "T", mine[2])
-                if wire.rt_ok(rt, True) != (not [g for g in guards if g != "G1"]):
+                if wire.rt_ok(rt, True) != (not guards):
                     ctx.disagree("strict-vs-guards", {"rt": rt}, wire.rt_ok(rt, True), guards)
             # independent reference reader (skips G3 documents: they are ambiguous without a DTD)
             if "G3" not in guards and (base + i) % 5 == 0:
@@ -161,9 +159,6 @@ def run(ctx):
         wss = wire.WS_SMALL if rng.random() < 0.5 else wire.WS_RICH
         rt = wire.random_rt(rng, t, wss, p_cdata=rng.choice((0.0, 0.25, 0.6)), strict=strict,
                             p_close=rng.choice((0.0, 0.5, 0.5, 1.0)))
-        if strict and not wire.cd_safe(wire.rt_doc(rt)):
-            # G1: re-draw with line breaks after every element
-            rt = wire.random_rt(rng, t, ["\n", "\r\n  ", "\n\t"], p_cdata=0.5, strict=True)
         add(rt, rng.choice(wss) if rng.random() < 0.3 else "")
     # ---- small-scope exhaustive ------------------------------------------------------------------------------
     for nn in (1, 2):
@@ -197,22 +192,18 @@ def run(ctx):
 
     flush()
 
-    # ---- guard G1 twin, and lexer soup ----------------------------------------------------------------------
+    # ---- lexer / builder soup ----------------------------------------------------------------------
     m = ctx.budget(6000, 120000)
     soups = [wire.soup(rng, rng.choice((1, 2, 3, 5, 8, 12))) for _ in range(m)]
     soups = list(dict.fromkeys(soups))
     rl = ctx.model.ask([line("lex", d) for d in soups])
     rb = ctx.model.ask([line("build", d) for d in soups])
-    rs = ctx.model.ask([line("spec.cdsafe", d) for d in soups])
-    for d, l, b, sf in zip(soups, rl, rb, rs):
+    for d, l, b in zip(soups, rl, rb):
         ctx.compare("lex", {"doc": d}, canon_lex(regex, d), l.vals[0] if l.ok else l.raw, nontrivial=False)
         impl, ikind = impl_build(TreeBuilder, d)
         model, mkind = model_build(b)
         ctx.compare("build", {"doc": d}, impl, model, nontrivial=False)
         ctx.stat("soup:" + (impl[0] if impl[0] == "ok" else "err:" + str(ikind)))
-        ctx.evaluations += 1
-        if not sf.ok or sf.vals[0] != ("T" if wire.cd_safe(d) else "F"):
-            ctx.disagree("spec.cdsafe", {"doc": d}, wire.cd_safe(d), sf.raw)
     vbuf.emit()
 
 
